@@ -66,6 +66,10 @@ def fired_rules(pid, repo, configs, ctx_cache):
         for v in r.violations:
             if (pid, v.key) not in known:
                 rules.add(v.rule)
+    import re as _re
+    for m in machinery:
+        if _re.search(r'\] (ANCHOR|FLOOR)', m):
+            rules.add('ANCHOR')  # reported as a violation by main.py (a clause that could not be evaluated)
     if machinery and os.environ.get('VF_SHOW_MACHINERY') == '1':
         rules.add('MACHINERY(%s)' % machinery[0].split(']', 1)[-1].strip()[:60])
     return rules, machinery
